@@ -141,4 +141,91 @@ func c11Gen(ctx *core.Ctx) {
 			Seed: ctx.R.U64() >> 1}
 		run(in)
 	}
+	// D. churn: subscribers coming and going (every departure completes before the next step),
+	// then Broadcasts judged per subscriber
+	for _, ops := range c11ChurnSystematic() {
+		run(c11Input{Kind: "script", Ops: ops})
+	}
+	nchurn := 150
+	if ctx.Thorough {
+		nchurn = 4000
+	}
+	for k := 0; k < nchurn; k++ {
+		run(c11Input{Kind: "script", Ops: c11ChurnRandom(ctx.R, ctx.Thorough)})
+	}
+	// E. rushed runs: nothing may be handed over after Close returned
+	reps := 120
+	if ctx.Thorough {
+		reps = 3000
+	}
+	for _, mode := range []string{"seq", "par"} {
+		for _, sb := range [][2]int{{1, 1}, {1, 3}, {2, 1}, {3, 10}, {1, 10}, {4, 2}} {
+			run(c11Input{Kind: "rush", Subs: sb[0], Bcasts: sb[1], Mode: mode, Reps: reps})
+		}
+	}
+}
+
+// c11ChurnSystematic: n0 subscribers; EVERY choice of a first leaver; a newcomer; EVERY choice of
+// a second leaver among those still there (the newcomer included); Broadcasts before, between
+// and after; the readers on command are told to read everything at the end.
+func c11ChurnSystematic() [][]c11Op {
+	var out [][]c11Op
+	for n0 := 2; n0 <= 4; n0++ {
+		for l1 := 0; l1 < n0; l1++ {
+			for l2 := 0; l2 <= n0; l2++ {
+				if l2 == l1 {
+					continue
+				}
+				for _, prompt := range []bool{true, false} {
+					var ops []c11Op
+					for i := 0; i < n0; i++ {
+						ops = append(ops, sub(prompt || i%2 == 0))
+					}
+					ops = append(ops, bc(1), cancelOp(l1), sub(true), bc(1), cancelOp(l2), bc(2), sub(prompt), bc(1))
+					for i := 0; i <= n0+1; i++ {
+						ops = append(ops, rall(i))
+					}
+					ops = append(ops, bc(1))
+					out = append(out, c11Expand(ops))
+				}
+			}
+		}
+	}
+	return out
+}
+
+func c11ChurnRandom(r *hx.Rand, thorough bool) []c11Op {
+	maxSubs, n := 8, r.Range(8, 30)
+	if thorough {
+		maxSubs, n = 14, r.Range(8, 60)
+	}
+	var ops []c11Op
+	var live []int
+	nsub := 0
+	addSub := func() {
+		ops = append(ops, sub(r.Chance(3, 4)))
+		live = append(live, nsub)
+		nsub++
+	}
+	addSub()
+	addSub()
+	for len(ops) < n {
+		x := r.Intn(100)
+		switch {
+		case x < 25 && nsub < maxSubs:
+			addSub()
+		case x < 50 && len(live) > 0:
+			k := r.Intn(len(live))
+			ops = append(ops, cancelOp(live[k]))
+			live = append(live[:k], live[k+1:]...)
+		case x < 85:
+			ops = append(ops, c11Op{Op: "bcast"})
+		case x < 93 && nsub > 0:
+			ops = append(ops, c11Op{Op: "read", I: r.Intn(nsub)})
+		case nsub > 0:
+			ops = append(ops, rall(r.Intn(nsub)))
+		}
+	}
+	ops = append(ops, c11Op{Op: "bcast"}, c11Op{Op: "bcast"})
+	return ops
 }
